@@ -263,8 +263,7 @@ theorem lexStep_restrict (s : List Nat) (bol sp : Bool) (t : Tok) (r : List Nat)
   rw [lexStep.eq_2] at h
   by_cases hlc : [47, 47].isPrefixOf (c :: a) = true
   · rw [if_pos hlc] at h
-    generalize skipLine (List.drop 1 a) = o at h
-    cases o <;> cases h
+    cases h
   rw [if_neg hlc] at h
   by_cases hbc : [47, 42].isPrefixOf (c :: a) = true
   · rw [if_pos hbc] at h
@@ -449,14 +448,14 @@ theorem lexLoop_tokens_selfLexing (n : Nat) : ∀ (s : List Nat) (bol sp : Bool)
 
 /-! ### the fuel of `lex` is never exhausted -/
 
-theorem skipLine_length (a r : List Nat) (h : skipLine a = some r) : r.length ≤ a.length := by
+theorem skipLine_length (a : List Nat) : (skipLine a).length ≤ a.length := by
   induction a with
-  | nil => simp [skipLine] at h
+  | nil => simp [skipLine]
   | cons c t ih =>
-    rw [skipLine] at h
-    split at h
-    · cases h; exact Nat.le_refl _
-    · have := ih h; simp only [List.length_cons]; omega
+    rw [skipLine]
+    split
+    · exact Nat.le_refl _
+    · simp only [List.length_cons]; omega
 
 theorem findCommentEnd_length (a r : List Nat) (h : findCommentEnd a = some r) : r.length ≤ a.length := by
   induction a with
@@ -475,15 +474,11 @@ theorem lexStep_skip_length (s : List Nat) (bol sp : Bool) (r : List Nat) (b p :
   rw [lexStep.eq_2] at h
   by_cases hlc : [47, 47].isPrefixOf (c :: a) = true
   · rw [if_pos hlc] at h
-    cases ho : skipLine (List.drop 1 a) with
-    | none => rw [ho] at h; cases h
-    | some r0 =>
-      rw [ho] at h
-      injection h with h1
-      subst h1
-      have := skipLine_length _ _ ho
-      simp only [List.length_drop, List.length_cons] at this ⊢
-      omega
+    injection h with h1
+    subst h1
+    have := skipLine_length (List.drop 1 a)
+    simp only [List.length_drop, List.length_cons] at this ⊢
+    omega
   rw [if_neg hlc] at h
   by_cases hbc : [47, 42].isPrefixOf (c :: a) = true
   · rw [if_pos hbc] at h
@@ -593,8 +588,7 @@ theorem lexStep_ne_fuel (s : List Nat) (bol sp : Bool) : lexStep s bol sp ≠ .e
   rw [lexStep.eq_2] at h
   by_cases hlc : [47, 47].isPrefixOf (c :: a) = true
   · rw [if_pos hlc] at h
-    generalize skipLine (List.drop 1 a) = o at h
-    cases o <;> cases h
+    cases h
   rw [if_neg hlc] at h
   by_cases hbc : [47, 42].isPrefixOf (c :: a) = true
   · rw [if_pos hbc] at h
